@@ -459,8 +459,8 @@ def run_case(c):
     _count_branches(c, cnt, exp)
 
     # ---- row independence -------------------------------------------------------------------
-    if not res["viol"]:
-        _row_independence(c, rng, P, extra, batch, got, mag, res, mech)
+    # (also when the values are off: a result that depends on the other rows is a separate observation)
+    _row_independence(c, rng, P, extra, batch, got, mag, res, mech)
     res["nontrivial"] = res["judged"] >= 1 and not bad.any()
     return res
 
